@@ -284,7 +284,7 @@ def ProcessorObeysDiscipline : Prop :=
 /-- **proved part**: chains with at most one holder at position `h` (`h = acts.length`: none),
     no break upstream of it; every input sequence in read order with arbitrary time-outs and
     re-attachments; every call depth (`fuel`), i.e. every prefix of the run. -/
-theorem processor_obeys_discipline_partial (acts : List Proc.Act) (h : Nat) (hch : Proc.Chain acts h)
+theorem processor_obeys_discipline_partial (acts : List Proc.Act) [Proc.NoCol acts] (h : Nat) (hch : Proc.Chain acts h)
     (ins : List Proc.Item) (hok : Proc.ItemsOK acts h ins) (hs : Proc.Above 0 ins) (fuel : Nat) :
     ∃ d, Proc.drun {} (Proc.discharge fuel acts (Proc.PS.init ins)).1.toks = some d := by
   cases hd : Proc.discharge fuel acts (Proc.PS.init ins) with
@@ -295,6 +295,10 @@ theorem processor_obeys_discipline_partial (acts : List Proc.Act) (h : Nat) (hch
     have : ps'.toks = extra := by simpa [Proc.PS.init] using ht
     simpa [this] using hdr
 
+/-- non-vacuity of `NoCol`: a chain of plain, join-like and split-like actions -/
+example : Proc.NoCol [.plain 0, .holder 0, .spawner, .holder 1] :=
+  ⟨fun j i => by rcases j with _ | _ | _ | _ | j <;> simp⟩
+
 /-- **proved part, any chain**: any number of holding actions anywhere in the chain (two joins,
     join behind join_template, …), plain and split-like actions in between, match conditions; the
     only hypothesis is that no *plain* action breaks an event (source fact: among the shipped
@@ -303,7 +307,7 @@ theorem processor_obeys_discipline_partial (acts : List Proc.Act) (h : Nat) (hch
     Holds for the processor as repaired by `fix: processor.Propagate`; proof in
     `Lemmas/ProcN.lean`: holders further down the chain hold older events (`Shape`), an event that
     passes the whole chain leaves no holder busy (`PostN`), simulated step by step by `dstep?`. -/
-theorem processor_obeys_discipline_any_chain (acts : List Proc.Act) (ins : List Proc.Item)
+theorem processor_obeys_discipline_any_chain (acts : List Proc.Act) [Proc.NoCol acts] (ins : List Proc.Item)
     (hnb : Proc.ItemsNoBrk ins) (hs : Proc.Above 0 ins) (fuel : Nat) :
     ∃ d, Proc.drun {} (Proc.discharge fuel acts (Proc.PS.init ins)).1.toks = some d := by
   cases hd : Proc.discharge fuel acts (Proc.PS.init ins) with
